@@ -70,6 +70,7 @@ type c18Scenario struct {
 	Tret      int       `json:"tret"`
 	W         int       `json:"w"`
 	Items     []c18Item `json:"items"`
+	Failed    []string  `json:"failed,omitempty"`     // listeners whose Accept fails for good at run time, before the shutdown
 	Removed   []string  `json:"removed,omitempty"`    // listeners closed at run time (proxy.CloseProxy) before the shutdown
 	Signals   int       `json:"signals,omitempty"`    // further shutdown requests while the shutdown is under way
 	Late      []string  `json:"late,omitempty"`       // servers that are handed their listener only after shutdown has begun
@@ -597,6 +598,82 @@ func (w *c18World) stage(name string) (*c18Server, func(), error) {
 	return s, func() { go func() { s.served <- srv.Serve(ln) }() }, nil
 }
 
+// c18FaultListener is a listener whose Accept can be made to fail for good (as it does when the process runs
+// out of file descriptors and the like -- with an error that is not temporary).
+type c18FaultListener struct {
+	net.Listener
+	failed int32
+}
+
+func (l *c18FaultListener) Accept() (net.Conn, error) {
+	c, err := l.Listener.Accept()
+	if atomic.LoadInt32(&l.failed) != 0 {
+		if err == nil {
+			c.Close()
+		}
+		return nil, fmt.Errorf("accept: injected failure of the listener")
+	}
+	return c, err
+}
+
+func (l *c18FaultListener) fail() {
+	atomic.StoreInt32(&l.failed, 1)
+	if c, err := net.DialTimeout("tcp", l.Addr().String(), time.Second); err == nil { // wake Accept up
+		c.Close()
+	}
+}
+
+// stageFail starts a server through proxy.serve -- the function every ListenAndServe* ends in -- on a listener
+// that can be made to fail, and returns the switch.
+func (w *c18World) stageFail(name string) (*c18Server, func(), error) {
+	kind := c18Base(name)
+	addr, err := c18FreeAddr()
+	if err != nil {
+		return nil, nil, err
+	}
+	l := config.Listen{Addr: addr, Proto: kind}
+	var tlsCfg *tls.Config
+	if kind == "https" || kind == "tcp+tls" {
+		tlsCfg = w.tlsCfg
+	}
+	ln, err := ListenTCP(l, tlsCfg)
+	if err != nil {
+		return nil, nil, err
+	}
+	var srv Server
+	switch kind {
+	case "http", "https":
+		srv = &http.Server{Addr: addr, Handler: w.up, TLSConfig: tlsCfg}
+	case "tcp", "tcp+tls":
+		srv = &tcp.Server{Addr: addr, Handler: &tcp.Proxy{DialTimeout: 5 * time.Second, Lookup: c18Target(w.plainUp.Addr().String())}}
+	case "tcp+sni":
+		srv = &tcp.Server{Addr: addr, Handler: &tcp.SNIProxy{DialTimeout: 5 * time.Second, Lookup: c18Target(w.tlsUp.Addr().String())}}
+	case "grpc":
+		srv = &gRPCServer{server: grpc.NewServer(w.grpcOpts()...)}
+	default:
+		ln.Close()
+		return nil, nil, fmt.Errorf("kind %s cannot be given a failing listener", name)
+	}
+	fl := &c18FaultListener{Listener: ln}
+	s := &c18Server{kind: name, addr: addr, srv: srv, served: make(chan error, 1)}
+	go func() { s.served <- serve(fl, srv) }()
+	deadline := time.Now().Add(5 * time.Second)
+	for {
+		var reg Server
+		if !c18Registry(func() { reg = servers[addr] }) {
+			return nil, nil, fmt.Errorf("the registry of servers is locked")
+		}
+		if reg != nil {
+			break
+		}
+		if time.Now().After(deadline) {
+			return nil, nil, fmt.Errorf("%s on %s never came up", name, addr)
+		}
+		time.Sleep(time.Millisecond)
+	}
+	return s, fl.fail, nil
+}
+
 // start brings one listener of the kind up through the package's own entry point.
 func (w *c18World) start(name, fixedAddr string) (*c18Server, error) {
 	var lastErr error
@@ -795,7 +872,7 @@ func (w *c18World) launch(s *c18Server, it c18Item, id, flavour string, timeout 
 					return
 				}
 				c.(*net.TCPConn).SetLinger(0)
-				c.Close() // RST
+				c.Close()                         // RST
 				time.Sleep(50 * time.Millisecond) // pacing: let the proxy see the reset
 				close(r.established)
 				<-ctx.Done()
@@ -970,10 +1047,19 @@ func (w *c18World) play(sc *c18Scenario, seed int64) (res c18Result) {
 		isLate[k] = true
 	}
 	var lateSteps []func()
+	isFailing, failSwitch := map[string]bool{}, map[string]func(){}
+	for _, k := range sc.Failed {
+		isFailing[k] = true
+	}
 	for _, k := range append(plain, twins...) {
 		var s *c18Server
 		var err error
-		if isLate[k] {
+		if isFailing[k] {
+			var sw func()
+			if s, sw, err = w.stageFail(k); err == nil {
+				failSwitch[k] = sw
+			}
+		} else if isLate[k] {
 			var step func()
 			if s, step, err = w.stage(k); err == nil {
 				lateSteps = append(lateSteps, step)
@@ -1056,6 +1142,20 @@ func (w *c18World) play(sc *c18Scenario, seed int64) (res c18Result) {
 	for _, it := range sc.Items {
 		if it.At > sc.Tstart {
 			late = append(late, it)
+		}
+	}
+
+	// ---- listeners that fail at run time: Accept returns an error, Serve returns (fabio's main treats that as
+	// fatal and shuts down -- which is what follows)
+	for _, k := range sc.Failed {
+		if sw := failSwitch[k]; sw != nil {
+			sw()
+			select {
+			case err := <-srvs[k].served:
+				srvs[k].served <- err
+			case <-time.After(3 * time.Second):
+				res.notes = append(res.notes, fmt.Sprintf("Serve of %s did not return after its listener failed", k))
+			}
 		}
 	}
 
